@@ -53,6 +53,10 @@ def stepLine (s : Store) (ws : List String) : Store × String :=
   | ["commit", g, t, p, off, md] => match g.toNat?, t.toNat?, p.toNat?, off.toInt?, md.toNat? with
     | some g, some t, some p, some off, some md => (exec s (.commitConsumerOffset g t p off md), "ok")
     | _, _, _, _, _ => (s, "bad-op")
+  | ["oldcommit", g, t, p, off, _age] =>   -- a commit made long ago: the state keeps no timestamp (empty metadata)
+    match g.toNat?, t.toNat?, p.toNat?, off.toInt? with
+    | some g, some t, some p, some off => (exec s (.commitConsumerOffset g t p off 0), "ok")
+    | _, _, _, _ => (s, "bad-op")
   | ["group", g, st, gen, ms] => match g.toNat?, st.toNat?, gen.toNat? with
     | some g, some st, some gen => (exec s (.putConsumerGroup g ⟨st, gen, ids ms⟩), "ok")
     | _, _, _ => (s, "bad-op")
